@@ -12,6 +12,7 @@ from hypothesis import strategies as st
 from vlib import world as W
 from vlib import refcodec as R
 from vlib import simbus
+from vlib import simkernel as sk
 from vlib.netmodel import RESERVED_PF
 
 SA_S, DA1, DA2 = 0x30, 0x40, 0x41
@@ -69,12 +70,50 @@ class C11:
         return 2500 if tier == "quick" else 180000
 
     def enumerate(self, tier):
-        return []
+        # application-thread schedule sweeps over a few small call sequences (buffer-full path, append path, two destinations)
+        def call(t, n, kind, lim, fmt="FEFF"):
+            return {"t_ms": t, "n": n, "kind": kind, "dp": 0, "pf": 0xB0 if kind != "bc2" else 0xFE, "ps": 0x10, "prio": 6,
+                    "limit_ms": lim, "fmt": fmt, "ctx": "app", "a": 7}
+        seqs = [[call(0, 40, "d1", 200), call(20, 40, "d1", 50)],
+                [call(0, 10, "d1", 100), call(5, 10, "d1", 20), call(6, 60, "d1", 50)],
+                [call(0, 30, "d1", 50), call(1, 30, "d2", 10)],
+                [call(0, 40, "bc2", 100), call(10, 40, "bc2", 20), call(11, 8, "bc2", 0)],
+                [call(0, 56, "d1", 30), call(2, 1, "d1", 200), call(3, 60, "d1", 5)]]
+        out = []
+        for i, calls in enumerate(seqs if tier == "quick" else seqs + [list(reversed(c)) for c in seqs]):
+            out.append({"sweep": True, "calls": calls, "eps": [0.0, 1e-5], "disp": [0.0], "lat": [0.0002], "pre_timer": None,
+                        "sas": [0x30, 0x40, 0x41], "tx_time": 0.0})
+        return out
 
     def exhaustive(self, tier):
         return False
 
     def run_case(self, p):
+        if not p.get("sweep"):
+            return self._run_once(p)
+        # schedule sweep: the calls are made by an application THREAD; it is held for 1 ms / 20 ms at its k-th traced source
+        # line inside the stack (every k) while the job thread keeps running - outcome must not depend on it
+        base = self._run_once(dict(p, app_thread=True))
+        if base["violations"]:
+            return base
+        nlines = base["app_lines"]
+        sub = 1
+        for k in range(nlines):
+            for d in (0.001, 0.02):
+                r = self._run_once(dict(p, app_thread=True, hold=[k, d]))
+                sub += 1
+                if r["violations"]:
+                    for v in r["violations"]:
+                        v["msg"] += " [application thread held %g s at its traced line %d]" % (d, k)
+                        v["bucket"] += "|app-preempted"
+                    r["subruns"] = sub
+                    return r
+        base["subruns"] = sub
+        base["labels"] = base["labels"] + ["app-thread-sweep"]
+        base["nontrivial"] = True
+        return base
+
+    def _run_once(self, p):
         viol = []
 
         def V(kind, msg, site=""):
@@ -84,7 +123,11 @@ class C11:
         txt = p.get("tx_time", 0.0)
         # (a due frame may wait for the frames the job thread is still writing in the same pass)
         L = max(p["eps"]) + max(p["disp"]) + 2e-6 + txt * (len(p["calls"]) + 1)
-        w = W.World(latency={"R1": p["lat"], "R2": p["lat"][::-1]}, wake_eps=p["eps"], dispatch=p["disp"])
+        if p.get("hold"):
+            L += p["hold"][1]          # a held thread may hold a lock the job thread needs: scheduling latency, not a defect
+        pre = [{"thread": 3, "k": p["hold"][0], "d": p["hold"][1]}] if p.get("hold") else None     # thread 3 = the application thread
+        w = W.World(latency={"R1": p["lat"], "R2": p["lat"][::-1]}, wake_eps=p["eps"], dispatch=p["disp"], preempt=pre,
+                    trace=bool(p.get("app_thread")))
         subs = []     # (t, fmt, da, cpgn, payload, limit, result)
         try:
             j = W.load()
@@ -100,6 +143,7 @@ class C11:
             if p.get("pre_timer"):
                 s.ecu.add_timer(p["pre_timer"], lambda c: True)       # a periodic timer changes where the job thread sleeps
 
+            app_calls = []
             for ci, c in enumerate(p["calls"]):
                 def do(c=c, ci=ci):
                     da = {"d1": DA1, "d2": DA2}.get(c["kind"], 255)
@@ -112,17 +156,30 @@ class C11:
                                                 frame_format=FBFF if c["fmt"] == "FBFF" else FEFF)
                     except Exception as e:  # noqa
                         r = "EXC:%s:%s" % (type(e).__name__, str(e)[:100])
-                    subs.append({"t": t_sub, "fmt": c["fmt"], "da": da, "cpgn": cpgn, "data": bytes(data),
+                    subs.append({"t": t_sub, "t_ret": w.sim.now, "fmt": c["fmt"], "da": da, "cpgn": cpgn, "data": bytes(data),
                                  "limit": c["limit_ms"] / 1000.0, "r": r, "ctx": c["ctx"], "ci": ci})
                 t = 0.05 + c["t_ms"] / 1000.0
                 if c["ctx"] == "timer":
                     w.at(t, (lambda do=do: s.ecu.add_timer(0.0, lambda cookie: (do(), False)[1])))
+                elif p.get("app_thread"):
+                    app_calls.append((t, do))
                 else:
                     w.at(t, do)
+            if p.get("app_thread"):
+                def app_body():
+                    for (t_, do_) in sorted(app_calls, key=lambda x: x[0]):
+                        dt_ = w.t0 + t_ - w.sim.now
+                        if dt_ > 0:
+                            sk.FAKE_TIME.sleep(dt_)
+                        do_()
+                w.sim.trace_armed = True
+                app_th = sk.spawn(app_body, name="application")
+                assert app_th.index == 3, app_th.index
             t_end = 0.05 + max(c["t_ms"] for c in p["calls"]) / 1000.0 + 0.2 + 5.5
             w.run_until(w.t0 + t_end)
             for kind, detail, tt in w.liveness_problems():
                 V("liveness-" + kind, "%s %r" % (kind, detail))
+            app_lines = w.sim.line_counts.get(3, 0) if p.get("app_thread") else 0
             log = [e for e in w.bus.log if e.node == "S"]
             deliv = {"R1.ca": [], "R2.ca": [], "R2.ecu": []}
             for stk in (r1, r2):
@@ -190,7 +247,8 @@ class C11:
                       "%s|%s" % (sb["fmt"], "limit" if sb["limit"] else "immediate"))
                 continue
             tf = lst.pop(0)
-            if tf > sb["t"] + sb["limit"] + L + 1e-9:
+            # (a call whose thread was held inside send_pgn is judged from its return)
+            if tf > (sb["t_ret"] if p.get("app_thread") else sb["t"]) + sb["limit"] + L + 1e-9:
                 V("group-late", "group (cpgn 0x%05X, %d bytes) submitted at t=%.6f with time_limit %g s was on the bus at t=%.6f "
                   "(%.6f s late)" % (sb["cpgn"], len(sb["data"]), sb["t"] - 1000, sb["limit"], tf - 1000, tf - sb["t"] - sb["limit"]),
                   "%s|%s" % (sb["fmt"], sb["ctx"]))
@@ -236,7 +294,7 @@ class C11:
             labels.append("FBFF")
         if any(c["ctx"] == "timer" for c in p["calls"]):
             labels.append("from-timer")
-        return {"violations": viol, "labels": labels,
+        return {"violations": viol, "labels": labels, "app_lines": app_lines,
                 "nontrivial": packed_multi or any(c["limit_ms"] for c in p["calls"]),
                 "sample": {"calls": [{k: c[k] for k in ("t_ms", "n", "kind", "limit_ms", "fmt", "ctx")} for c in p["calls"][:8]],
                            "frames": len(frames)}}
